@@ -18,7 +18,7 @@ from collections import OrderedDict
 import random
 import unified_planning as up
 from unified_planning.exceptions import UPUsageError
-from typing import Dict, Optional
+from typing import Dict, List, Optional
 
 
 class ExecutionEnvironment:
@@ -86,20 +86,22 @@ class SimulatedExecutionEnvironment(ExecutionEnvironment):
         deterministic_problem = up.model.Problem(problem.name, problem.environment)
 
         for fluent in problem.fluents:
-            default_value = problem.initial_defaults.get(fluent.type, False)
+            # the default as resolved by the contingent problem: the per-fluent default
+            # if one was given, else the per-type default, else no default at all
             deterministic_problem.add_fluent(
-                fluent, default_initial_value=default_value
+                fluent, default_initial_value=problem.fluents_defaults.get(fluent)
             )
 
         deterministic_problem.add_objects(problem.all_objects)
 
+        hidden_atoms = self._hidden_atoms(problem)
         for f, v in problem.explicit_initial_values.items():
-            if f not in problem.hidden_fluents:
+            if f not in hidden_atoms:
                 deterministic_problem.set_initial_value(f, v)
 
         for action in problem.actions:
             if isinstance(action, up.model.contingent.sensing_action.SensingAction):
-                # Create a dummy action with no effects instead of a sensing action
+                # Create a dummy action without observations instead of a sensing action
                 params = OrderedDict({p.name: p.type for p in action.parameters})
                 dummy = up.model.InstantaneousAction(
                     action.name,
@@ -108,6 +110,8 @@ class SimulatedExecutionEnvironment(ExecutionEnvironment):
                 )
                 for precond in action.preconditions:
                     dummy.add_precondition(precond)
+                for effect in action.effects:
+                    dummy._add_effect_instance(effect.clone())
                 deterministic_problem.add_action(dummy)
             else:
                 deterministic_problem.add_action(action.clone())
@@ -121,6 +125,19 @@ class SimulatedExecutionEnvironment(ExecutionEnvironment):
 
         return deterministic_problem
 
+    @staticmethod
+    def _hidden_atoms(
+        problem: "up.model.contingent.contingent_problem.ContingentProblem",
+    ) -> List["up.model.FNode"]:
+        """
+        Returns the fluent expressions whose initial value is hidden: a hidden
+        literal `Not(f)` hides `f`, exactly as the hidden literal `f` does.
+        """
+        atoms: Dict["up.model.FNode", None] = {}
+        for hf in problem.hidden_fluents:
+            atoms[hf.arg(0) if hf.is_not() else hf] = None
+        return list(atoms)
+
     def _randomly_set_full_initial_state(
         self, problem: "up.model.contingent.contingent_problem.ContingentProblem"
     ):
@@ -130,12 +147,11 @@ class SimulatedExecutionEnvironment(ExecutionEnvironment):
         fnode_to_symbol = {}
         symbol_to_fnode = {}
         cnt = 0
-        for hf in problem.hidden_fluents:
-            if not hf.is_not():
-                s = Symbol(f"v_{cnt}")
-                fnode_to_symbol[hf] = s
-                symbol_to_fnode[s] = hf
-                cnt += 1
+        for hf in self._hidden_atoms(problem):
+            s = Symbol(f"v_{cnt}")
+            fnode_to_symbol[hf] = s
+            symbol_to_fnode[s] = hf
+            cnt += 1
 
         constraints = []
         for c in problem.oneof_constraints:
